@@ -7,6 +7,7 @@ import Drv.C20
 import Drv.Core
 import Drv.DramMon
 import Drv.Phy
+import Drv.PortMon
 open DrvUtil
 
 def main (args : List String) : IO UInt32 := do
@@ -19,8 +20,10 @@ def main (args : List String) : IO UInt32 := do
   | ["c20exp5"] => mapLines i o drvC20exp5; return 0
   | ["c20path4"] => foldLines i o none drvC20path4; return 0
   | ["c20stream4"] => foldLines i o none drvC20stream4; return 0
+  | ["portmon"] => foldLines i o none drvPortMon; return 0
   | ["phy"] => foldLines i o none drvPhy; return 0
   | ["drammon"] => foldLines i o none drvDramMon; return 0
+  | ["core"] => foldLines i o none drvCore; return 0
   | ["controller"] => foldLines i o none drvController; return 0
   | ["refresher"] => foldLines i o none drvRefresher; return 0
   | ["bankmachine"] => foldLines i o none drvBankMachine; return 0
